@@ -190,6 +190,8 @@ func runMerkle(rng *Rng, n int, st *Stats, param string) ([]string, []any) {
 			if len(proof) > 0 {
 				add("ragged", txid, root, proof[:len(proof)-1-r.Intn(31)], uint32(pos))
 			}
+			// the genuine path followed by 1..31 stray bytes: not a whole number of nodes
+			add("ragged-extended", txid, root, append(append([]byte{}, proof...), r.Side(3).Bytes(1+r.Side(4).Intn(31))...), uint32(pos))
 		case 11:
 			// leaf 0 (the coinbase) presented under other positions
 			p0 := merkleProof(levels, 0)
